@@ -392,6 +392,12 @@ def gen_case(rnd, i):
         nodes = [{"processor": "TSourceDef"}] + ([{"processor": "TProbe", "context_key": rnd.choice(["w", "c"])}] if rnd.random() < 0.5 else []) + \
                 [{"processor": "TWriteThenFail"}, {"processor": "TOp0"}]
         ctx0 = {"other": "kept"}
+    if i % 16 == 11:
+        # the context also holds a value that cannot be copied or serialised (a lock, a generator, a module): no node touches it,
+        # every SER statement about the other keys stays true
+        import threading
+        ctx0 = dict(ctx0)
+        ctx0["handle"] = rnd.choice([threading.Lock(), (x for x in (1, 2)), json, open])
     return nodes, ctx0
 
 
